@@ -207,3 +207,23 @@ Example C04_wf_witness :
   /\ forallb (fun e => match e with EWire b => reply_wf b | _ => true end)
              (serve 40 C04Example.cfg C04Example.be [[C04Example.raw_of C04Example.stream]]) = true.
 Proof. exact C04Refuted.wf_hypotheses. Qed.
+
+
+(* ---------------- obligations over the reply-site table regenerated from /repo on every run ---------------- *)
+From Smtp Require Import ReplySitesProofs.
+From SmtpGen Require Import ReplySites.
+
+(* every literal reply of the source has a reply code in 200..599 and an enhanced code of its class
+   (or leaves it to writeResponse's defaulting; NoEnhancedCode only for greeting, EHLO reply and 3xx) *)
+Theorem C04_sites_class_ok : forallb site_class_ok reply_sites = true.
+Proof. exact sites_class_ok. Qed.
+Print Assumptions C04_sites_class_ok.
+
+(* the model and the source contain the same reply literals (code, enhanced code, text) *)
+Theorem C04_code_replies_in_model : unmatched_sites = nil.
+Proof. exact every_code_reply_is_in_the_model. Qed.
+Print Assumptions C04_code_replies_in_model.
+
+Theorem C04_model_replies_in_code : unmatched_model = nil.
+Proof. exact every_model_reply_is_in_the_code. Qed.
+Print Assumptions C04_model_replies_in_code.
